@@ -51,6 +51,15 @@ func runResidueDirected(e *Env) {
 		}
 		residueUnreachableNode(e, rep)
 	}
+	for rep := 0; rep < e.Pick(4, 24); rep++ {
+		if e.Of > 1 && rep%e.Of != e.Batch {
+			continue
+		}
+		if R.NumViolations() > 6 {
+			return
+		}
+		residueAfterClose(e, rep)
+	}
 }
 
 func residueAfterAnswers(e *Env, m string, skipOne, reachable bool, buffer uint) {
@@ -228,4 +237,78 @@ func residueUnreachableNode(e *Env, rep int) {
 	}
 	R.Max("max.goroutine_growth_over_40_calls_to_an_unreachable_node", int64(g2-g1))
 	R.Eval(fmt.Sprintf("directed|unreachable-since-creation|%d", rep), true)
+}
+
+// residueAfterClose: (3) calls made on a manager that has been closed end at once with an error (C12 judges that); here: however
+// many of them are made, of whatever kind, the closed nodes keep no response router and no per-call goroutine for them.
+func residueAfterClose(e *Env, rep int) {
+	R := e.R
+	const n = 3
+	cl, err := h.NewCluster(h.Options{N: n, Block: true, DialTimeout: 2 * time.Second, SendBuffer: uint(rep%2) * 4})
+	if err != nil {
+		R.Inconc("cluster: " + err.Error())
+		return
+	}
+	defer cl.Close()
+	nodes := cl.Mgr.Nodes()
+	routers := func() int {
+		t := 0
+		for _, nd := range nodes {
+			t += gorums.VerifRouterCount(nd.RawNode)
+		}
+		return t
+	}
+	call := func(k int, timeout time.Duration) bool {
+		tok := h.NewToken()
+		req := &puppet.Req{Call: tok, Seq: tok, Kind: 18}
+		cl.QS.Register(&h.CallMon{Token: tok, Orig: req, Decide: func(inv *h.Inv) (bool, int) { return len(inv.Keys) >= n, len(inv.Keys) }})
+		defer cl.QS.Unregister(tok)
+		ctx, cancel := context.WithTimeout(context.Background(), timeout)
+		defer cancel()
+		m := []string{"RPC", "QC", "Async", "Corr", "Uni", "Multi", "CorrStream", "QCPN", "AsyncCombo"}[k%9]
+		t := h.Go("c18:after-close:"+m, func() {
+			if w := Invoke(cl, cl.Cfg, &Op{Method: m, Node: k % n}, ctx, req); w != nil {
+				w()
+			}
+		})
+		return h.Await(t, e.W+timeout).Verdict == h.Returned
+	}
+	for k := 0; k < 9; k++ {
+		call(k, 5*time.Second)
+	}
+	time.Sleep(5 * time.Millisecond)
+	base, _ := libCallGoroutines()
+	tc := h.Go("c18:close", func() { cl.Mgr.Close() })
+	if hi := h.Await(tc, e.W); hi.Verdict != h.Returned {
+		R.Inconc("Close did not return (judged by C12)")
+		return
+	}
+	const K = 45
+	for k := 0; k < K; k++ {
+		if !call(k, 2*time.Second) {
+			R.Inconc("a call on a closed manager did not return (judged by C12)")
+			return
+		}
+	}
+	var gs, rs int
+	var ex []string
+	dl := time.Now().Add(e.W)
+	for {
+		gs, ex = libCallGoroutines()
+		rs = routers()
+		if (gs <= base && rs == 0) || time.Now().After(dl) {
+			break
+		}
+		time.Sleep(5 * time.Millisecond)
+	}
+	det := map[string]any{"calls_after_close": K, "send_buffer": rep % 2 * 4}
+	if rs > 0 {
+		R.Violate("routers-left", fmt.Sprintf("%d calls of all kinds made on a closed manager (each returned) left %d response router(s) on its nodes (%.1f per call)", K, rs, float64(rs)/K), det)
+	}
+	if gs > base {
+		det["goroutines"] = ex
+		R.Violate("call-goroutines-left", fmt.Sprintf("%d calls made on a closed manager left %d goroutine(s) of per-call library functions: %v", K, gs-base, ex), det)
+	}
+	R.Eval(fmt.Sprintf("directed|after-close|%d", rep), true)
+	R.Count("directed.calls_made_on_a_closed_manager", K)
 }
